@@ -173,3 +173,77 @@ def presentations(values, rng):
 
 
 SENTINELS = (0xABABABAB, 0xCDCDCDCD, 0xEFEFEFEF)
+
+
+# --------------------------------------------------------------------------- #
+# several threads inside the kernels at the same time (the cubes call them from a thread pool)
+def threaded_workload(so, rng, threads=8, rounds=25, big=150000):
+    """Every thread owns private operands (long enough that the GIL-free merge loops of different threads
+    coincide) and calls all four kernels `rounds` times; each result is compared, in the calling thread,
+    with the answer NumPy's own set routines gave beforehand.  Returns
+    {"calls", "overlapping", "mismatches": [(thread, op, detail)], "errors": [(thread, op, exception)]}."""
+    import threading
+    import time
+
+    U32 = numpy.uint32
+    plans = []
+    for t in range(threads):
+        la = int(rng.integers(big // 3, big))
+        lb = int(rng.integers(big // 3, big))
+        a = numpy.unique(rng.integers(0, 3 * big, size=la, dtype=numpy.int64)).astype(U32)
+        b = numpy.unique(rng.integers(0, 3 * big, size=lb, dtype=numpy.int64)).astype(U32)
+        # multi-way lists: the same number of arrays in every thread, very different lengths
+        lens = [int(x) for x in rng.permutation([int(rng.integers(1, 40)), int(rng.integers(500, 5000)), int(rng.integers(big // 4, big))])]
+        many = [numpy.unique(rng.integers(0, 3 * big, size=m, dtype=numpy.int64)).astype(U32) for m in lens]
+        ops = [("intersect", so.set_intersect_merge_np, (a, b), numpy.intersect1d(a, b, assume_unique=True).astype(U32)),
+               ("union", so.set_union_merge_np, (a, b), numpy.union1d(a, b).astype(U32)),
+               ("difference", so.set_difference_merge_np, (a, b), numpy.setdiff1d(a, b, assume_unique=True).astype(U32)),
+               ("many", so.set_union_merge_many, (many,), numpy.unique(numpy.concatenate(many)).astype(U32))]
+        plans.append(ops)
+    spans = [[] for _ in range(threads)]
+    mismatches = [[] for _ in range(threads)]
+    errors = [[] for _ in range(threads)]
+    barrier = threading.Barrier(threads)
+
+    def work(t):
+        barrier.wait()
+        for r in range(rounds):
+            for name, fn, args, expected in plans[t]:
+                t0 = time.perf_counter_ns()
+                try:
+                    res = fn(*args)
+                except BaseException as e:  # noqa: B902 - reported by the caller
+                    errors[t].append((name, e))
+                    return
+                spans[t].append((t0, time.perf_counter_ns()))
+                if not (isinstance(res, numpy.ndarray) and res.dtype == U32 and res.shape == expected.shape
+                        and numpy.array_equal(res, expected)):
+                    if len(mismatches[t]) < 3:
+                        got = numpy.asarray(res)
+                        where = None
+                        if got.shape == expected.shape:
+                            where = int(numpy.argmax(got != expected))
+                        mismatches[t].append((name, "len %s vs expected %d%s" % (got.shape, len(expected),
+                                                                                  "" if where is None else ", first difference at %d" % where),
+                                              [x.copy() for x in (args[0] if name == "many" else args)]))
+
+    ths = [threading.Thread(target=work, args=(t,), daemon=True) for t in range(threads)]
+    for th in ths:
+        th.start()
+    for th in ths:
+        th.join(600)
+    alive = sum(1 for th in ths if th.is_alive())
+    # how many calls really ran at the same time as a call of another thread
+    ev = sorted((s, e, t) for t in range(threads) for s, e in spans[t])
+    overlapping = 0
+    maxend_other = {}
+    for i, (s, e, t) in enumerate(ev):
+        for s2, e2, t2 in ev[i + 1:i + 1 + 4 * threads]:
+            if s2 >= e:
+                break
+            if t2 != t:
+                overlapping += 1
+                break
+    return {"calls": sum(len(x) for x in spans), "overlapping": overlapping, "stuck_threads": alive,
+            "mismatches": [(t,) + m for t in range(threads) for m in mismatches[t]],
+            "errors": [(t,) + e for t in range(threads) for e in errors[t]]}
